@@ -261,7 +261,8 @@ def _defaults(ctx):
         facts.append(f"SE.Axis.defaultEps = {lit(default(fn, 'eps'))}")
         if default(fn, "left_closed") is not True or default(fn, "right_closed") is not False:
             ctx.fail("obligation", "defaults", detail=f"{fn.__name__}: closedness defaults are no longer [start, stop)")
-    for fn in (dims.get_dim_step, dims.estimate_dim_step):
+    est = getattr(dims, "estimate_dim_step", None)     # public helper; get_dim_step is what the operations call
+    for fn in [dims.get_dim_step] + ([est] if est is not None else []):
         facts.append(f"SE.Axis.defaultRtol = {lit(default(fn, 'rtol'))}")
         facts.append(f"SE.Axis.defaultAtol = {lit(default(fn, 'atol'))}")
         if default(fn, "check_tolerance") is not True:
